@@ -202,6 +202,11 @@ size_t qurl_decode(char *str) {
                 break;
             }
             case '%': {
+                if (*(pEncPt + 1) == '\0' || *(pEncPt + 2) == '\0') {
+                    // truncated escape at the end of the string, keep it as is.
+                    *pBinPt++ = *pEncPt;
+                    break;
+                }
                 *pBinPt++ = _q_x2c(*(pEncPt + 1), *(pEncPt + 2));
                 pEncPt += 2;
                 break;
